@@ -70,6 +70,7 @@ struct Shm {
     uint64_t rec[CAP];
     uint64_t best[CAP];
     char bestsig[256];
+    char desc[16384];               // description flushed by the worker before it runs the code under test
 };
 
 struct Ctx {
@@ -128,6 +129,8 @@ struct Ctx {
     Bytes bytes(size_t n) { Bytes b(n); for (auto &x : b) x = (uint8_t)draw(255); return b; }
     uint64_t u64() { return draw(UINT64_MAX); }
 
+    // make the description so far visible to the parent even if this process dies right after
+    void checkpoint() { if (!shm) return; std::string d = desc.str(); size_t n = std::min(d.size(), sizeof(shm->desc) - 1); memcpy((char *)shm->desc, d.data(), n); ((char *)shm->desc)[n] = 0; }
     void label(const std::string &l) { labels.push_back(l); }
     void nontrivial() { nontriv = true; }
     void nontrivial(uint64_t key) { nontriv = true; nontriv_key = key; nontriv_key_set = true; }
@@ -256,7 +259,7 @@ struct Runner {
     }
     template <class F> Outcome in_child(F run) {
         int pfd[2]; if (pipe(pfd)) { perror("pipe"); exit(2); }
-        shm->nrec = 0; shm->phase = 1;
+        shm->nrec = 0; shm->phase = 1; shm->desc[0] = 0;
         fflush(stdout); fflush(stderr);
         pid_t pid = fork();
         if (pid == 0) {
@@ -277,7 +280,7 @@ struct Runner {
         size_t p = buf.find('\x1d');
         if (WIFEXITED(status) && WEXITSTATUS(status) == 0 && p != std::string::npos && parse_outcome(buf.substr(0, p), o)) {
             o.rec.assign(shm->rec, shm->rec + shm->nrec);
-        } else { o.rec.assign(shm->rec, shm->rec + shm->nrec); classify_death(status, o); }
+        } else { o.rec.assign(shm->rec, shm->rec + shm->nrec); classify_death(status, o); o.desc = std::string((const char *)shm->desc) + " [process died here]"; }
         return o;
     }
     void redirect_stderr() {
@@ -469,7 +472,7 @@ struct Runner {
                 close(pfd[0]); redirect_stderr();
                 FILE *out = fdopen(pfd[1], "w");
                 for (uint64_t j = i; j < opt.cases; j++) {
-                    shm->case_index = j; shm->nrec = 0; shm->phase = 1;
+                    shm->case_index = j; shm->nrec = 0; shm->phase = 1; shm->desc[0] = 0;
                     arm_cpu_timer();
                     Outcome o = exec_random(j, shm);
                     disarm_cpu_timer();
@@ -509,7 +512,7 @@ struct Runner {
             } else if (!(WIFEXITED(status) && WEXITSTATUS(status) == 0) || at < opt.cases) {
                 // worker died inside case `at`
                 Outcome o; o.rec.assign(shm->rec, shm->rec + shm->nrec);
-                classify_death(status, o);
+                classify_death(status, o); o.desc = std::string((const char *)shm->desc) + " [process died here]";
                 st.evaluations++;
                 stop = handle_failure(o, size_for(at), "random seed=" + std::to_string(opt.seed) + " case=" + std::to_string(at));
                 i = at + 1;
